@@ -9,6 +9,7 @@ package main
 import (
 	"fmt"
 	"runtime"
+	"sort"
 	"sync"
 	"sync/atomic"
 	"time"
@@ -200,6 +201,115 @@ func staleValidation() J {
 	return obs
 }
 
+// failingTxWithWaiter: G1 is inside a user transaction that will return an error; a second caller (a local call, or
+// the delivery of a remote operation) reaches the datatype and waits for its mutex; then G1's transaction fails and is
+// rolled back.  One-at-a-time semantics: the waiter's operation is applied, queued (local) and nothing of G1's stays.
+func failingTxWithWaiter(remote bool) J {
+	obs := J{}
+	c := orda.NewClient(orda.NewLocalClientConfig("col"), "f")
+	ctr := c.CreateCounter("k", nil)
+	var remoteOps []*model.Operation
+	if remote {
+		pc := orda.NewClient(orda.NewLocalClientConfig("col"), "fp")
+		peer := pc.SubscribeCounter("k", nil)
+		_, _ = peer.IncreaseBy(7)
+		remoteOps = peer.(iface.Datatype).CreatePushPullPack().Operations
+	}
+	var g2 uint64
+	g2AtLock := make(chan struct{})
+	var once sync.Once
+	verifhook.SetHook(func(p string) {
+		if p == "tx.begin.beforeLock" && curG() == atomic.LoadUint64(&g2) {
+			once.Do(func() { close(g2AtLock) })
+		}
+	})
+	defer verifhook.SetHook(nil)
+	inside := make(chan struct{})
+	release := make(chan struct{})
+	res := make(chan string, 2)
+	go func() {
+		defer func() {
+			if r := recover(); r != nil {
+				res <- "g1:panic:" + fmt.Sprint(r)
+			}
+		}()
+		err := ctr.Transaction("failing", func(cc orda.CounterInTx) error {
+			_, _ = cc.IncreaseBy(10)
+			close(inside)
+			select {
+			case <-release:
+			case <-time.After(3 * time.Second):
+			}
+			return fmt.Errorf("user error")
+		})
+		if err != nil {
+			res <- "g1:err"
+		} else {
+			res <- "g1:ok"
+		}
+	}()
+	select {
+	case <-inside:
+	case <-time.After(2 * time.Second):
+		obs["notInside"] = true
+	}
+	go func() {
+		defer func() {
+			if r := recover(); r != nil {
+				res <- "g2:panic:" + fmt.Sprint(r)
+			}
+		}()
+		atomic.StoreUint64(&g2, curG())
+		if remote {
+			_, err := ctr.(iface.Datatype).ReceiveRemoteModelOperations(remoteOps, false)
+			if err != nil {
+				res <- "g2:err"
+				return
+			}
+		} else if _, err := ctr.Increase(); err != nil {
+			res <- "g2:err"
+			return
+		}
+		res <- "g2:ok"
+	}()
+	select {
+	case <-g2AtLock:
+	case <-time.After(2 * time.Second):
+		obs["waiterNotAtLock"] = true
+	}
+	time.Sleep(30 * time.Millisecond) // the waiter is now blocked on the mutex (or about to be)
+	close(release)
+	outcomes := []interface{}{}
+	for i := 0; i < 2; i++ {
+		select {
+		case r := <-res:
+			outcomes = append(outcomes, r)
+		case <-time.After(3 * time.Second):
+			outcomes = append(outcomes, "deadlock")
+		}
+	}
+	sort.Slice(outcomes, func(a, b int) bool { return fmt.Sprint(outcomes[a]) < fmt.Sprint(outcomes[b]) })
+	obs["outcomes"] = outcomes
+	func() {
+		defer func() {
+			if r := recover(); r != nil {
+				obs["readPanic"] = fmt.Sprint(r)
+			}
+		}()
+		obs["value"] = ctr.Get()
+		seqs := []interface{}{}
+		for _, op := range ctr.(iface.Datatype).CreatePushPullPack().Operations {
+			seqs = append(seqs, op.ID.Seq)
+		}
+		obs["seqs"] = seqs
+		// a further call must get the next identifier
+		_, _ = ctr.Increase()
+		obs["valueAfterOneMore"] = ctr.Get()
+		obs["queuedAfterOneMore"] = len(ctr.(iface.Datatype).CreatePushPullPack().Operations)
+	}()
+	return obs
+}
+
 // stress: n goroutines issue calls and transactions on one datatype while another one applies remote
 // operations; schedule points yield at random.
 func stress(r *rng, typ string, ngo, nops int) J {
@@ -254,7 +364,13 @@ func stress(r *rng, typ string, ngo, nops int) J {
 				}()
 				switch d := dt.(type) {
 				case orda.Counter:
-					if i%4 == 3 {
+					if i%7 == 5 {
+						// a failing transaction: rolled back, nothing of it may stay, nobody else's operation may be lost
+						_ = d.Transaction("f", func(cc orda.CounterInTx) error {
+							_, _ = cc.IncreaseBy(1000)
+							return fmt.Errorf("user error")
+						})
+					} else if i%4 == 3 {
 						err := d.Transaction("t", func(cc orda.CounterInTx) error {
 							_, _ = cc.IncreaseBy(1)
 							_, _ = cc.IncreaseBy(1)
@@ -358,6 +474,15 @@ func runConcProfile(seed uint64, cases int, out func(cmd, obs J), statsPath stri
 	for _, pt := range []string{"tx.unlock.afterMutexUnlock", "tx.begin.beforeLock"} {
 		out(J{"k": "intent", "of": "witness", "point": pt}, J{})
 		out(J{"k": "witness", "point": pt}, forcedWitness(pt))
+		stats["witness"]++
+	}
+	for _, remote := range []bool{false, true} {
+		pt := "tx.failing-with-waiter.local"
+		if remote {
+			pt = "tx.failing-with-waiter.remote"
+		}
+		out(J{"k": "intent", "of": "witness", "point": pt}, J{})
+		out(J{"k": "witness", "point": pt}, failingTxWithWaiter(remote))
 		stats["witness"]++
 	}
 	out(J{"k": "intent", "of": "witness", "point": "list.stale-validation"}, J{})
